@@ -97,7 +97,7 @@ def gen_error_codes(defs):
 
 STUBS = {
     'error_codes': 'pub fn run() { eprintln!("not generated"); std::process::exit(2); }\n',
-    'value_types': 'pub fn run(_args: &[String]) { eprintln!("not generated"); std::process::exit(2); }\npub fn run_resolver() { eprintln!("not generated"); std::process::exit(2); }\npub fn run_lint() { eprintln!("not generated"); std::process::exit(2); }\npub fn run_containers() { eprintln!("not generated"); std::process::exit(2); }\npub fn run_typer() { eprintln!("not generated"); std::process::exit(2); }\n',
+    'value_types': 'pub fn run(_args: &[String]) { eprintln!("not generated"); std::process::exit(2); }\npub fn run_resolver() { eprintln!("not generated"); std::process::exit(2); }\npub fn run_lint() { eprintln!("not generated"); std::process::exit(2); }\npub fn run_call() { eprintln!("not generated"); std::process::exit(2); }\npub fn run_containers() { eprintln!("not generated"); std::process::exit(2); }\npub fn run_typer() { eprintln!("not generated"); std::process::exit(2); }\n',
 }
 
 
